@@ -1,0 +1,10 @@
+//go:build verif
+
+package loader
+
+// VerifC12LocalLoader builds the (unexported) local resource loader anchored at dir, so that a verification harness can
+// derive the loader list of a nested load the way ApplyInclude and getExtendsBaseFromFile do:
+// append(opts.RemoteResourceLoaders(), localResourceLoader{WorkingDir: dir}).  Compiled only with the `verif` build tag.
+func VerifC12LocalLoader(dir string) ResourceLoader {
+	return localResourceLoader{WorkingDir: dir}
+}
